@@ -54,13 +54,12 @@ section at `pos`; returns the TSIG record (its `start` is `end_data`). -/
 def locateSig (buf : Bytes) (h : Hdr) (pos : Nat) (rdok : Bool) : Outcome SigRec :=
   if h.an + h.ns > 65535 then .panic "tsig:answers+authorities" else
   if rdok = false then .err else
-  let upd := h.opcode == 5
-  match readRecords buf false upd (h.an + h.ns) pos none none with
+  match readRecords buf false (h.opcode == 5) (h.an + h.ns) pos none none with
   | .ok (p1, _, _) =>
-    match readRecords buf true upd (h.ar - 1) p1 none none with
+    match readRecords buf true (h.opcode == 5) (h.ar - 1) p1 none none with
     | .ok (p2, sig2, _) =>
       if sig2.isSome then .panic "tsig:debug_assert-sig" else
-      match readRecords buf true upd 1 p2 none none with
+      match readRecords buf true (h.opcode == 5) 1 p2 none none with
       | .ok (_, some s, _) => .ok s
       | .ok (_, none, _) => .err                    -- "TSIG signature record not found"
       | .err => .err
@@ -196,12 +195,11 @@ def parseRequest (buf : Bytes) (rdok : Bool) : Outcome Req :=
     match readQuery buf 12 with
     | .ok (qn, qt, qc, pos) =>
       if rdok = false then .err else
-      let upd := h.opcode == 5
-      match readRecords buf false upd h.an pos none none with
+          match readRecords buf false (h.opcode == 5) h.an pos none none with
       | .ok (p1, _, _) =>
-        match readRecords buf false upd h.ns p1 none none with
+        match readRecords buf false (h.opcode == 5) h.ns p1 none none with
         | .ok (p2, _, _) =>
-          match readRecords buf true upd h.ar p2 none none with
+          match readRecords buf true (h.opcode == 5) h.ar p2 none none with
           | .ok (_, sig, edns) =>
             .ok { hdr := h, qname := qn, qtype := qt, qclass := qc, sig := sig, edns := edns }
           | .err => .err
